@@ -151,6 +151,18 @@ CLAIMED = {
         design='DESIGN.md §5 C12',
         note=NOTE_COMMON + 'Exact arithmetic domain (<= 28 digits); value()/convert() use the opaque price map: homomorphism checked on the implementation up to context rounding.',
         technique='Lean 4 proof (commutative-monoid homomorphism, reducer linearity, prefix-sum invariant) + ledger correspondence'),
+    'C20': dict(
+        text=('Lean theorems: for ANY number of threads and ANY schedule, if each step touches only its own thread\'s private '
+              'state, the state of every thread after the schedule is its own step function iterated as often as it was '
+              'scheduled - so every interleaving (every permutation of a schedule) gives the serial result; the repaired balance '
+              'column (guard kept in the scan\'s row context) is an instance; a decided schedule A B A\' on which the former '
+              'process-wide one-entry cache counts a posting twice; the advertised thread-safety level is a generated fact. Tied to '
+              'the code by scheduler-driven threads: all interleavings of 2 threads x 2 yield points plus seeded longer schedules '
+              'and sampled triples, on a shared connection and on separate connections, each compared with serial execution; a '
+              'shared-state audit of module-level containers and table objects validates the privacy hypothesis.'),
+        design='DESIGN.md §5 C20',
+        note=NOTE_COMMON + 'PARTIAL by construction: interleavings are explored at column-evaluation / yield-function granularity, not between CPython bytecodes; unscheduled stress runs (thorough) are testing.',
+        technique='Lean 4 proof (product-of-state-machines commutation + decided counter-example) + scheduler-driven interleavings'),
 }
 
 PENDING_REASON = 'check under construction in this round (model or correspondence not yet registered); not claimed yet'
